@@ -547,6 +547,12 @@ fn panic_class(msg: &str) -> &'static str {
     }
 }
 
+/// Keys shaped like macro keys: shared prefixes, differing late, separators and quotes.
+pub fn l1_key(k: u8) -> String {
+    const KEYS: [&str; 9] = ["0|\"\"", "0|\"aaaaaa\"", "0|\"aaaaaab\"", "1|\"b|c\"", "1|\"b|\"", "10|\"q\"", "10", "1", "0|\"aaaaaa\"|7"];
+    KEYS[(k % 9) as usize].to_string()
+}
+
 fn run_typed<V: MaybeResult>(case: &CoreCase, focus: Focus) -> CaseOut {
     let cfg = case.cfg();
     let mut out = CaseOut { key: hash_of(case), ..CaseOut::default() };
@@ -567,13 +573,13 @@ fn run_typed<V: MaybeResult>(case: &CoreCase, focus: Focus) -> CaseOut {
         let mut info = StepInfo::default();
         let res = crate::infra::guarded(|| match op {
             CoreOp::Get { k } => {
-                let key = format!("k{k}");
+                let key = l1_key(*k);
                 let got = eng.get(&key);
                 let snap = eng.snapshot();
                 Some((key, got.map(|v| hash_of(&v)), snap, 0u8))
             }
             CoreOp::Put { k, v } => {
-                let key = format!("k{k}");
+                let key = l1_key(*k);
                 let val = V::build(v);
                 let (tag, fp) = (hash_of(&val), val.footprint());
                 eng.put(&key, val, mem_path);
@@ -581,7 +587,7 @@ fn run_typed<V: MaybeResult>(case: &CoreCase, focus: Focus) -> CaseOut {
                 Some((key, Some(tag ^ (fp as u64).rotate_left(40)), snap, 1))
             }
             CoreOp::PutResult { k, v } => {
-                let key = format!("k{k}");
+                let key = l1_key(*k);
                 let val = V::build(v);
                 let (tag, fp) = (hash_of(&val), val.footprint());
                 let is_err = val.is_err();
